@@ -18,6 +18,7 @@ package c14
 
 import (
 	"fmt"
+	"os"
 	"sort"
 	"strconv"
 	"strings"
@@ -282,32 +283,55 @@ func c14Derive(v *c14Val, t string) []*c14Val {
 	return nil
 }
 
-const c14Prelude = `
-fn c14mk {|v| put { put $v } }
-fn c14elems {|v|
-  var t = (kind-of $v)
-  if (eq $t list) { all $v } elif (eq $t map) { keys $v | order | each {|x| put $v[$x] } }
+const c14Prelude = "fn c14mk {|v| put { put $v } }\n"
+
+// c14SubExprs lists the container elements at depth 1 and 2 of v as elvish
+// indexing suffixes ("[0]", "[0][k]", ...) together with their model values, in
+// the order of c14Subs. (Every capture `( )` and every pipeline of the evaluator
+// costs an OS pipe, so the alias-taking code is generated straight-line from the
+// model instead of exploring the value with elvish conditionals.)
+func c14SubExprs(v *c14Val) (sfx []string, sub []*c14Val) {
+	each := func(c *c14Val, f func(idx string, e *c14Val)) {
+		switch c.kind {
+		case 'l':
+			for i, e := range c.l {
+				f(strconv.Itoa(i), e)
+			}
+		case 'm':
+			for _, k := range c.keys() {
+				f(k, c.m[k])
+			}
+		}
+	}
+	each(v, func(i string, x *c14Val) {
+		if x.kind == 's' {
+			return
+		}
+		sfx, sub = append(sfx, "["+i+"]"), append(sub, x)
+		each(x, func(j string, y *c14Val) {
+			if y.kind != 's' {
+				sfx, sub = append(sfx, "["+i+"]["+j+"]"), append(sub, y)
+			}
+		})
+	})
+	return
 }
-fn c14subs {|v|
-  c14elems $v | each {|x|
-    if (not-eq (kind-of $x) string) {
-      put $x
-      c14elems $x | each {|y| if (not-eq (kind-of $y) string) { put $y } }
-    }
-  }
+
+// c14DeriveCode is the elvish code that outputs the values of c14Derive(v, t)
+// for the value denoted by expression x.
+func c14DeriveCode(x string, v *c14Val, t string) string {
+	switch v.kind {
+	case 'l':
+		if len(v.l) == 0 {
+			return "conj " + x + " " + t + "\n"
+		}
+		return "conj " + x + " " + t + "; assoc " + x + " 0 " + t + "; assoc " + x + " -1 " + t +
+			"; put " + x + "[1..] " + x + "[..-1]; conj " + x + "[..-1] " + t + "\n"
+	case 'm':
+		return "assoc " + x + " " + t + " " + t + "; assoc " + x + " k " + t + "; dissoc " + x + " k\n"
+	}
+	return ""
 }
-fn c14derive {|v t|
-  var kd = (kind-of $v)
-  if (eq $kd list) {
-    put (conj $v $t)
-    if (> (count $v) 0) {
-      put (assoc $v 0 $t) (assoc $v -1 $t) $v[1..] $v[..-1] (conj $v[..-1] $t)
-    }
-  } elif (eq $kd map) {
-    put (assoc $v $t $t) (assoc $v k $t) (dissoc $v k)
-  }
-}
-`
 
 // ---------------------------------------------------------------------------
 // Shapes and steps.
@@ -538,6 +562,7 @@ func c14Alphabet() []*c14Step {
 type c14Alias struct {
 	kind string // var, closure, container, elements, derived, other-var, output, output-element, body-output
 	expr string // elvish expression producing exactly one value; "" for a value kept on the Go side
+	call bool   // expr is a closure to call; its single output is the value
 	val  any    // Go-side value
 	want string // reference repr
 	born int    // step before which it was taken
@@ -550,7 +575,7 @@ type c14Run struct {
 }
 
 func c14NewRun() *c14Run {
-	return &c14Run{ev: eval.NewEvaler(), ch: make(chan any, 2048)}
+	return &c14Run{ev: eval.NewEvaler(), ch: make(chan any, 256)}
 }
 
 func (r *c14Run) eval(code string) (outs []any, exc string, panicked string) {
@@ -575,18 +600,23 @@ func (r *c14Run) eval(code string) (outs []any, exc string, panicked string) {
 // takeAliases takes aliases of the current values of $a and $b before step i.
 func (r *c14Run) takeAliases(i int, st c14State) string {
 	n := strconv.Itoa(i)
+	sfx, subs := c14SubExprs(st.a)
+	elems, derive := "", c14DeriveCode("$a", st.a, "t"+n)
+	for k, sx := range sfx {
+		elems += " $a" + sx
+		derive += c14DeriveCode("$a"+sx, subs[k], "t"+n)
+	}
 	code := "var b" + n + " = $a\n" +
 		"var f" + n + " = (c14mk $a)\n" +
 		"var d" + n + " = [$a [&k=$a]]\n" +
-		"var c" + n + " = [(c14subs $a)]\n" +
-		"var e" + n + " = [(c14derive $a t" + n + ") (each {|x| c14derive $x t" + n + " } $c" + n + ")]\n" +
+		"var c" + n + " = [" + elems + "]\n" +
+		"var e" + n + " = [(\n" + derive + ")]\n" +
 		"var o" + n + " = $b\n" +
 		"put $a $b $@c" + n
 	outs, exc, p := r.eval(code)
 	if p != "" || exc != "" {
 		return "taking aliases failed: " + exc + p
 	}
-	subs := c14Subs(st.a)
 	if len(outs) != 2+len(subs) {
 		return fmt.Sprintf("taking aliases output %d values, want %d", len(outs), 2+len(subs))
 	}
@@ -598,7 +628,7 @@ func (r *c14Run) takeAliases(i int, st c14State) string {
 	A := st.a.String()
 	r.aliases = append(r.aliases,
 		&c14Alias{kind: "var", expr: "$b" + n, want: A, born: i},
-		&c14Alias{kind: "closure", expr: "($f" + n + ")", want: A, born: i},
+		&c14Alias{kind: "closure", expr: "$f" + n, call: true, want: A, born: i},
 		&c14Alias{kind: "container", expr: "$d" + n, want: "[" + A + " [&k=" + A + "]]", born: i},
 		&c14Alias{kind: "elements", expr: "$c" + n, want: c14L(subs...).String(), born: i},
 		&c14Alias{kind: "derived", expr: "$e" + n, want: c14L(derived...).String(), born: i},
@@ -613,28 +643,40 @@ func (r *c14Run) takeAliases(i int, st c14State) string {
 
 // observe reads $a, $b and every alias.
 func (r *c14Run) observe() (a, b string, got []string, problem string) {
-	var sb strings.Builder
+	var sb, calls strings.Builder
 	sb.WriteString("put $a $b")
 	n := 2
 	for _, al := range r.aliases {
-		if al.expr != "" {
+		if al.call {
+			calls.WriteString("\n" + al.expr)
+			n++
+		} else if al.expr != "" {
 			sb.WriteByte(' ')
 			sb.WriteString(al.expr)
 			n++
 		}
 	}
-	outs, exc, p := r.eval(sb.String())
+	outs, exc, p := r.eval(sb.String() + calls.String())
 	if p != "" || exc != "" || len(outs) != n {
 		return "", "", nil, fmt.Sprintf("reading the aliases failed: %s%s (%d values, want %d)", exc, p, len(outs), n)
 	}
 	a, b = vals.ReprPlain(outs[0]), vals.ReprPlain(outs[1])
 	got = make([]string, len(r.aliases))
-	k := 2
+	k, kc := 2, n
+	for _, al := range r.aliases {
+		if al.call {
+			kc--
+		}
+	}
 	for i, al := range r.aliases {
-		if al.expr != "" {
+		switch {
+		case al.call:
+			got[i] = vals.ReprPlain(outs[kc])
+			kc++
+		case al.expr != "":
 			got[i] = vals.ReprPlain(outs[k])
 			k++
-		} else {
+		default:
 			got[i] = vals.ReprPlain(al.val)
 		}
 	}
@@ -809,6 +851,9 @@ func c14RunHistory(shapes []*c14Val, alpha []*c14Step, nd c14Node) (res c14Resul
 func TestVerifC14(t *testing.T) {
 	vk.Run(t, "C14", "model_checking", func(c *vk.Ctx) {
 		depth := vk.Pick(c, 3, 4)
+		if d, err := strconv.Atoi(os.Getenv("C14_DEPTH")); err == nil { // TEMPORARY
+			depth = d
+		}
 		shapes := c14Shapes()
 		alpha := c14Alphabet()
 		var coreIdx, allIdx []int
